@@ -77,22 +77,33 @@ class LinearOperator(Function):
 
         self.T.add_class_constraints = no_class_constraint_for_transpose
 
+    @staticmethod
+    def set_adjoint_constraint_i_j(xi, yi, fi,
+                                   uj, vj, hj,
+                                   ):
+        """
+        Formulates the constraint x_i^T v_j = y_i^T u_j between a sample (x_i, y_i) of self
+        and a sample (u_j, v_j) of its transpose.
+
+        """
+        # Constraint X^T V = Y^T U
+        constraint = (xi * vj == yi * uj)
+
+        return constraint
+
     def add_class_constraints(self):
         """
         Formulates the list of necessary and sufficient conditions for interpolation of self
         (Linear operator), see [1, Theorem 3.1].
         """
 
-        # Add interpolation constraints for linear operator
-        for point_xy in self.list_of_points:
-
-            xi, yi, fi = point_xy
-
-            for point_uv in self.T.list_of_points:
-                uj, vj, hj = point_uv
-
-                # Constraint X^T V = Y^T U
-                self.list_of_class_constraints.append(xi * vj == yi * uj)
+        # Add interpolation constraints for linear operator: X^T V = Y^T U
+        # (named, and stored in a table, like the class constraints of the other classes)
+        self.add_constraints_from_two_lists_of_points(list_of_points_1=self.list_of_points,
+                                                      list_of_points_2=self.T.list_of_points,
+                                                      constraint_name="adjoint",
+                                                      set_class_constraint_i_j=self.set_adjoint_constraint_i_j,
+                                                      )
 
         # Add constraint of singular value upper bound of self
         N1 = len(self.list_of_points)
